@@ -1,16 +1,16 @@
-SPECIFICATION Spec
+SPECIFICATION SimSpec
 CONSTANTS
-  WorkerCpus <- B_Workers
-  WorkerGroup <- B_Groups
-  Menu <- B_Menu
-  Classes <- B_Classes
+  WorkerCpus <- E_Workers
+  WorkerGroup <- E_Groups
+  Menu <- E_Menu
+  Classes <- E_Classes
   MaxLosses = 1
-  MaxCancels = 0
+  MaxCancels = 1
   MaxFails = 1
-  MaxLaunchFails = 1
+  MaxLaunchFails = 0
   PfReserve = 0
   PfMax = 1
-  Eager = TRUE
+  Eager = FALSE
 CHECK_DEADLOCK FALSE
 INVARIANTS
   NoPanic
@@ -43,7 +43,3 @@ INVARIANTS
   C14_ExceededStopped
   C05_MnExclusive
   C05_MnWorkersIdle
-  C01_OutcomeAtRest
-  C02_QuiescentOk
-PROPERTIES
-  StepProps
